@@ -83,6 +83,10 @@ def check_identities(q, where):
             raise PropertyViolation("C01.identity.pattern_owner", "%s: patterns[%d].project is not the project" % (where, i))
 
 
+def raw_link_tables(p):
+    return [None if m is None else [list(m.in_links), list(m.in_link_slots), list(m.out_links), list(m.out_link_slots)] for m in p.modules]
+
+
 def check_project_spec(ctx, spec):
     from rv.api import read_sunvox_file
 
@@ -103,7 +107,10 @@ def check_project_spec(ctx, spec):
     if got_layout != layout:
         raise PropertyViolation("C01.positions", "module positions are %r, expected %r" % (got_layout, layout))
     s0 = snapshot.snap_project(p)
+    raw0 = raw_link_tables(p)
     data = p.read()
+    if raw_link_tables(p) != raw0:
+        raise PropertyViolation("C01.save_is_pure.links", "saving changed the link tables in place: %r -> %r" % (raw0, raw_link_tables(p)))
     s0b = snapshot.snap_project(p)
     d = snapshot.diff(s0, s0b)
     if d:
